@@ -7,6 +7,7 @@ type NodeWrapper struct {
 
 func (wrapper *NodeWrapper) Execute(ctx *ExecutionContext, writer TemplateWriter) *Error {
 	for _, n := range wrapper.nodes {
+		verifGate(ctx, "wrap", 0)
 		err := n.Execute(ctx, writer)
 		if err != nil {
 			return err
